@@ -244,13 +244,119 @@ PROPERTY_SCOPE: Dict[str, List[str]] = {
 }
 
 
+# helper modules whose buffers feed the property's values
+EXTRA_DTYPE_SCOPE: Dict[str, List[str]] = {
+    'C01': ['data.computations.', 'util.build_rdm.'],
+    'C02': ['data.computations.'],
+    'C07': ['util.pooling.', 'util.inference_util._nan'],
+    'C11': ['data.computations.'],
+}
+
+
 def run(ctx, obs, prop: str):
     pre = PROPERTY_SCOPE.get(prop)
     if not pre:
         return
     a = fwd_default(ctx, obs, pre)
     b = par_live(ctx, obs, pre)
+    obs.analysed['sweep_dtype_buffers'] = dtype_inherit(ctx, obs, pre + EXTRA_DTYPE_SCOPE.get(prop, []))
     obs.analysed['sweep_fwd_default_sites'] = a
     obs.analysed['sweep_par_live_params'] = b
     if b == 0:
         raise AnalysisError(f'{prop}: the parameter sweep found no function under {pre} (module moved?)')
+
+
+# --------------------------------------------------------------------------------------------------------- DTYPE
+_LIKE = {'zeros_like', 'empty_like', 'ones_like', 'full_like'}
+_ALLOC = {'zeros', 'empty', 'ones', 'full'}
+_SELECT_ONLY = {'asarray', 'array', 'copy', 'squeeze', 'ravel', 'reshape', 'flatten', 'transpose', 'take', 'atleast_1d',
+                'atleast_2d', 'list', 'tuple'}
+
+
+def _leafname(fn):
+    return fn.attr if isinstance(fn, ast.Attribute) else (fn.id if isinstance(fn, ast.Name) else '')
+
+
+def _root(e):
+    while isinstance(e, (ast.Subscript, ast.Attribute)) or (isinstance(e, ast.Call) and _leafname(e.func) in _SELECT_ONLY):
+        if isinstance(e, ast.Call):
+            if isinstance(e.func, ast.Attribute) and not (isinstance(e.func.value, ast.Name) and e.func.value.id in ('np', 'numpy')):
+                e = e.func.value
+            elif e.args:
+                e = e.args[0]
+            else:
+                return None
+        else:
+            e = e.value
+    return e.id if isinstance(e, ast.Name) else None
+
+
+def dtype_inherit(ctx, obs, prefixes: Sequence[str], rule='DTYPE') -> int:
+    """A result buffer that takes its dtype from an input array (`np.zeros_like(x)`, `np.empty(.., dtype=x.dtype)`) may only
+    receive elements of that same array.  Storing computed values (counters, means, ranks, distances) into it silently casts
+    them to the input's type: integer data truncate means, one-character labels truncate '10' to '1', booleans collapse.
+    `np.ones_like(x) * np.nan` and an explicit dtype are not inherited allocations."""
+    prog = ctx.prog
+    n = 0
+    for q, f in sorted(prog.functions.items()):
+        if not _in_scope(q, prefixes):
+            continue
+        allocs = {}
+        for s in ast.walk(f.node):
+            if not (isinstance(s, ast.Assign) and isinstance(s.targets[0], ast.Name) and isinstance(s.value, ast.Call)):
+                continue
+            c = s.value
+            nm = _leafname(c.func)
+            dt = next((k.value for k in c.keywords if k.arg == 'dtype'), None)
+            src = None
+            if nm in _LIKE and c.args and dt is None:
+                src = c.args[0]
+            elif nm in _LIKE | _ALLOC and dt is not None and isinstance(dt, ast.Attribute) and dt.attr == 'dtype':
+                src = dt.value
+            if src is None:
+                continue
+            r = _root(src)
+            if r is None:
+                continue
+            allocs[s.targets[0].id] = (s, src, r)
+        if not allocs:
+            continue
+        local = {}
+        for s in ast.walk(f.node):
+            if isinstance(s, ast.Assign) and isinstance(s.targets[0], ast.Name):
+                local.setdefault(s.targets[0].id, []).append(s.value)
+
+        def selection_of(v, root, depth=0):
+            """v only selects elements of the array rooted at `root` (through indexing, views, locals bound to such)"""
+            if isinstance(v, ast.Name):
+                if v.id == root:
+                    return True
+                vals = local.get(v.id)
+                return bool(vals) and depth < 4 and all(selection_of(x, root, depth + 1) for x in vals)
+            if isinstance(v, ast.Constant):
+                return False
+            rr = v
+            if isinstance(rr, (ast.Subscript, ast.Attribute)) or (isinstance(rr, ast.Call) and _leafname(rr.func) in _SELECT_ONLY):
+                inner = rr.value if isinstance(rr, (ast.Subscript, ast.Attribute)) else \
+                    (rr.func.value if isinstance(rr.func, ast.Attribute) and not (isinstance(rr.func.value, ast.Name) and rr.func.value.id in ('np', 'numpy'))
+                     else (rr.args[0] if rr.args else None))
+                return inner is not None and selection_of(inner, root, depth)
+            return False
+        for name, (st, src, root) in sorted(allocs.items()):
+            stores = [s for s in ast.walk(f.node) if isinstance(s, (ast.Assign, ast.AugAssign))
+                      and isinstance((s.targets[0] if isinstance(s, ast.Assign) else s.target), ast.Subscript)
+                      and _root((s.targets[0] if isinstance(s, ast.Assign) else s.target)) == name]
+            if not stores:
+                continue
+            n += 1
+            # the source may itself be a local alias of the input (desc = np.asarray(dataset.obs_descriptors[d]))
+            roots = {root}
+            bad = [s for s in stores if not any(selection_of(s.value, r0) for r0 in roots)
+                   and not (isinstance(s.value, ast.Constant) and isinstance(s, ast.Assign) and s.value.value in (0, 1, False, True))]
+            con = f'buffer `{name}` typed like `{norm(src)[:40]}` only receives elements of that array'
+            if not bad:
+                obs.ok(rule, q, con, f'`{norm(st)[:70]}`', where(prog, f, st))
+            else:
+                obs.bad(rule, q, con, f'`{norm(st)[:80]}` takes its dtype from the input, but `{norm(bad[0])[:80]}` stores computed values: '
+                        f'they are cast to the input\'s type (integers truncate, short strings clip, booleans collapse)', where(prog, f, bad[0]))
+    return n
